@@ -244,6 +244,8 @@ fn run_formula(tok: &[&str]) -> String {
         None
     };
     let mode = if tok.len() > 2 { tok[2] } else { "eval" };
+    let mut ord_ids: Vec<usize> = ordering.as_ref().map(|o| o.iter().map(|v| v.id).collect()).unwrap_or_default();
+    ord_ids.sort();
     let mut rd = io::BufReader::new(&text[..]);
     match ParsedFormula::new(&mut rd, ordering) {
         Err(e) => format!("err {}", e.to_string().replace(' ', "_")),
@@ -252,6 +254,17 @@ fn run_formula(tok: &[&str]) -> String {
             let free: Vec<String> = pf.free_vars.iter().map(|v| format!("{}:{}", v.name, v.id)).collect();
             if mode == "parse" {
                 return format!("ok tree={} vars={} free={}", debug_tree(&pf.bdd), vars.join(","), free.join(","));
+            }
+            if mode == "evalall" {
+                // value of the evaluated diagram under every assignment of the ordering's ids (ascending id order)
+                let r = pf.eval();
+                return format!(
+                    "ok tt={} wf={} free={} dia={}",
+                    tt_of(&r, &ord_ids),
+                    if wf(&r, None, &ord_ids) { 1 } else { 0 },
+                    free.join(","),
+                    ser(&r).replace(' ', "_")
+                );
             }
             let r = pf.eval();
             let ids: Vec<usize> = pf.free_vars.iter().map(|v| v.id).collect();
